@@ -1,6 +1,8 @@
 package main
 
 import (
+	"fmt"
+
 	"github.com/evolbioinfo/gotree/tree"
 )
 
@@ -13,6 +15,14 @@ func init() { register("C17", c17) }
 //
 //	case ((tree T))            -> one observation
 //	case ((trees (T1 T2 ...))) -> ((runs (obs1 obs2 ...))), same rearranger value for all
+//
+// Optional keys of a single-tree case:
+//
+//	(ops (A U A U))   the operations done on every proposal object instead of Apply, Undo
+//	                  (A = Apply, U = Undo), with CheckTreePostOrder and a dump after each
+//	(collect (i ...)) the callback only KEEPS the proposal objects; after Rearrange has
+//	                  returned they are visited in the order given by the entries of the list
+//	                  that are < the number of proposals (an entry may occur several times)
 func c17(c *Sexp) *Sexp {
 	r := &tree.NNIRearranger{}
 	if ts := c.Get("trees"); ts != nil && ts.IsList {
@@ -31,7 +41,7 @@ func c17(c *Sexp) *Sexp {
 		}
 		runs := L()
 		for _, t := range trees {
-			runs.List = append(runs.List, c17one(r, t))
+			runs.List = append(runs.List, c17one(r, t, nil, nil))
 		}
 		return L(KV("runs", runs))
 	}
@@ -42,13 +52,37 @@ func c17(c *Sexp) *Sexp {
 	if err := t.ReinitIndexes(); err != nil {
 		return L(KV("panic", A("reinit: "+err.Error())))
 	}
-	return c17one(r, t)
+	var ops []string
+	if o := c.Get("ops"); o != nil && o.IsList {
+		ops = []string{}
+		for _, x := range o.List {
+			if x.Atom != "A" && x.Atom != "U" {
+				return L(KV("panic", A("harness: unknown operation "+x.Atom)))
+			}
+			ops = append(ops, x.Atom)
+		}
+	}
+	var collect []int
+	if o := c.Get("collect"); o != nil && o.IsList {
+		collect = []int{}
+		for _, x := range o.List {
+			var v int
+			if _, err := fmt.Sscanf(x.Atom, "%d", &v); err != nil || v < 0 {
+				return L(KV("panic", A("harness: bad index "+x.Atom)))
+			}
+			collect = append(collect, v)
+		}
+		if ops == nil {
+			ops = []string{"A", "U"}
+		}
+	}
+	return c17one(r, t, ops, collect)
 }
 
 // c17one is the body of the loop `for t := range treechan` of cmd/nni.go.  A panic of the code
 // under test is recorded in the observation of this tree, the following trees still run with
 // the same rearranger value.
-func c17one(r *tree.NNIRearranger, t *tree.Tree) (obs *Sexp) {
+func c17one(r *tree.NNIRearranger, t *tree.Tree, ops []string, collect []int) (obs *Sexp) {
 	defer func() {
 		if p := recover(); p != nil {
 			obs = L(KV("panic", A(c17panicStr(p))))
@@ -62,26 +96,86 @@ func c17one(r *tree.NNIRearranger, t *tree.Tree) (obs *Sexp) {
 
 	props := L()
 	var operr error
-	r.Rearrange(t, func(re tree.Rearrangement) bool {
-		if operr = re.Apply(); operr != nil {
-			return false
+
+	// visit performs the operations on one proposal object; false = stop (an error occurred)
+	visit := func(re tree.Rearrangement, idx int) bool {
+		if ops == nil {
+			// cmd/nni.go
+			if operr = re.Apply(); operr != nil {
+				return false
+			}
+			if operr = t.CheckTreePostOrder(); operr != nil {
+				return false
+			}
+			d, audit := ObserveTree(t)
+			props.List = append(props.List, L(KV("idx", I(idx)), KV("tree", d), KV("audit", audit), KV("nw", A(t.Newick()))))
+			if operr = re.Undo(); operr != nil {
+				return false
+			}
+			if operr = t.CheckTreePostOrder(); operr != nil {
+				return false
+			}
+			return true
 		}
-		if operr = t.CheckTreePostOrder(); operr != nil {
-			return false
+		steps := L()
+		var first *Sexp // the dump after the first Apply
+		for _, op := range ops {
+			var e error
+			if op == "A" {
+				e = re.Apply()
+			} else {
+				e = re.Undo()
+			}
+			if e == nil {
+				e = t.CheckTreePostOrder()
+			}
+			d, audit := ObserveTree(t)
+			st := L(KV("op", A(op)), KV("err", A(errStr(e))), KV("tree", d), KV("audit", audit), KV("nw", A(t.Newick())))
+			steps.List = append(steps.List, st)
+			if first == nil && op == "A" {
+				first = st
+			}
+			if e != nil {
+				operr = e
+				break
+			}
 		}
-		d, audit := ObserveTree(t)
-		props.List = append(props.List, L(KV("tree", d), KV("audit", audit), KV("nw", A(t.Newick()))))
-		if operr = re.Undo(); operr != nil {
-			return false
+		if first == nil && len(steps.List) > 0 {
+			first = steps.List[0]
 		}
-		if operr = t.CheckTreePostOrder(); operr != nil {
-			return false
+		p := L(KV("idx", I(idx)), KV("steps", steps))
+		if first != nil {
+			p.List = append(p.List, KV("tree", first.Get("tree")), KV("audit", first.Get("audit")), KV("nw", first.Get("nw")))
 		}
-		return true
-	})
+		props.List = append(props.List, p)
+		return operr == nil
+	}
+
+	n := 0
+	if collect == nil {
+		r.Rearrange(t, func(re tree.Rearrangement) bool {
+			ok := visit(re, n)
+			n++
+			return ok
+		})
+	} else {
+		kept := []tree.Rearrangement{}
+		r.Rearrange(t, func(re tree.Rearrangement) bool {
+			kept = append(kept, re)
+			return true
+		})
+		n = len(kept)
+		for _, i := range collect {
+			if i < n {
+				if !visit(kept[i], i) {
+					break
+				}
+			}
+		}
+	}
 
 	final, faudit := ObserveTree(t)
-	return L(KV("err", A(errStr(operr))), KV("n", I(len(props.List))), KV("orig", orig), KV("nw0", A(nw0)),
+	return L(KV("err", A(errStr(operr))), KV("n", I(n)), KV("orig", orig), KV("nw0", A(nw0)),
 		KV("props", props), KV("final", final), KV("audit", faudit), KV("nwf", A(t.Newick())))
 }
 
@@ -89,8 +183,5 @@ func c17panicStr(p interface{}) string {
 	if e, ok := p.(error); ok {
 		return e.Error()
 	}
-	if s, ok := p.(string); ok {
-		return s
-	}
-	return "panic"
+	return fmt.Sprintf("%v", p)
 }
